@@ -461,11 +461,19 @@ pub fn clone_probe<const N: usize>(cfg: &HxCfg, g: &Sodg<N>, m: &Model, hist: &d
     };
     let (oa, ob) = (observe_all(&orig, true), observe_all(&c, true));
     if oa != ob {
+        if observe_all(&orig, true) != oa || observe_all(&c, true) != ob {
+            out.push(Finding::new("observable-not-deterministic", &["C19"], "asking the same graph the same queries twice gives different answers".to_string()));
+            return;
+        }
         out.push(Finding::new("clone-answers-differ", tags, format!("the clone answers a query differently: {}", first_diff(&oa, &ob))));
         return;
     }
     // differential check of the explorer's own use of clone(): the state reached through clones
     let og = observe_all(g, true);
+    if og != oa && (observe_all(g, true) != og || observe_all(&orig, true) != oa) {
+        out.push(Finding::new("observable-not-deterministic", &["C19"], "asking the same graph the same queries twice gives different answers".to_string()));
+        return;
+    }
     if og != oa {
         out.push(Finding::new("clone-lineage-differs", tags, format!("the object reached through a chain of clone()s differs from the one rebuilt from scratch: {}", first_diff(&og, &oa))));
         return;
@@ -559,6 +567,10 @@ pub fn reload_probe<const N: usize>(g: &Sodg<N>, m: &Model, out: &mut Vec<Findin
                 Ok(Ok(l)) => l,
             };
             let (oa, ob) = (observe_all(g, true), observe_all(&l, true));
+            if oa != ob && (observe_all(g, true) != oa || observe_all(&l, true) != ob) {
+                out.push(Finding::new("observable-not-deterministic", &["C19"], "asking the same graph the same queries twice gives different answers".to_string()));
+                return Some(bytes);
+            }
             if oa != ob {
                 out.push(Finding::new("reload-answers-differ", tags, format!("the reloaded graph answers a query differently: {}", first_diff(&oa, &ob))));
                 return Some(bytes);
